@@ -21,7 +21,7 @@ type TypeOpts struct {
 	PtrPtr          bool           // **struct fields
 	Slices          bool           // []leaf, []struct, []*struct
 	Arrays          bool
-	Maps            bool           // map[string|int]leaf|struct|*struct
+	Maps            bool // map[string|int]leaf|struct|*struct
 	SliceOfSlice    bool
 	Tag             func(rng *rand.Rand, depth int, name string, ft reflect.Type) reflect.StructTag
 	ContainerOfLeaf bool // allow containers of leaf types (not only of structs)
@@ -153,14 +153,14 @@ func randFieldType(rng *rand.Rand, o TypeOpts, depth int) reflect.Type {
 
 // ValueOpts steers Fill.
 type ValueOpts struct {
-	PZero    float64                                          // probability of leaving a node zero / nil
-	PEmpty   float64                                          // probability of an empty non-nil collection
-	MaxLen   int                                              // max collection length
-	Str      func(rng *rand.Rand) string                      // string generator
-	Float    func(rng *rand.Rand, bits int) float64           // float generator
-	Leaf     func(rng *rand.Rand, t reflect.Type, tag reflect.StructTag) (reflect.Value, bool) // optional override per leaf
-	NilElems bool                                             // allow nil pointers inside slices / maps
-	MaxStructDepth int                                        // structs nested deeper than this stay zero (0 = no limit)
+	PZero          float64                                                                           // probability of leaving a node zero / nil
+	PEmpty         float64                                                                           // probability of an empty non-nil collection
+	MaxLen         int                                                                               // max collection length
+	Str            func(rng *rand.Rand) string                                                       // string generator
+	Float          func(rng *rand.Rand, bits int) float64                                            // float generator
+	Leaf           func(rng *rand.Rand, t reflect.Type, tag reflect.StructTag) (reflect.Value, bool) // optional override per leaf
+	NilElems       bool                                                                              // allow nil pointers inside slices / maps
+	MaxStructDepth int                                                                               // structs nested deeper than this stay zero (0 = no limit)
 	depth          int
 }
 
